@@ -344,4 +344,244 @@ theorem cs_contest_data_prefix (base : List Sampling.Card) (num : Nat → Nat) (
   refine ⟨?_, fun val name => data_prefix base val con.id name π con.sampleSize⟩
   rw [hd con hm h1, firstCards_cvrList base num hnum π hπ]
 
+/-! ### the multi-round audit with consistent sampling -/
+
+abbrev CsOut := Sampling.Rounds.Out
+abbrev CsRound := Sampling.Rounds.Round
+abbrev CsState := Sampling.Rounds.State
+
+/-- the card indices that are the data of contest `cid` in a round whose per-contest data (in dict order `ids`)
+are `dc`; `none` when `mvrs_to_data` raised for that contest or the contest is not there -/
+def dataOf (ids : List String) (dc : List (Except Sampling.Err (List Nat))) (cid : String) : Option (List Nat) :=
+  match (ids.zip dc).lookup cid with
+  | some (.ok idx) => some idx
+  | _ => none
+
+/-- what `set_p_values` evaluates after a round: the test of (contest, assertion) on the values of the contest's
+data cards, in sample-number order; no data or an exception of the test = no p-value (NaN, never `≤`) -/
+def roundTest (ids : List String) (val : String → String → Nat → ℚ) (T : String → String → SeqTest)
+    (dc : List (Except Sampling.Err (List Nat))) : Status.Test :=
+  fun cid name => match dataOf ids dc cid with
+    | some idx => (match T cid name (idx.map (val cid name)) with
+        | .ok r => r
+        | .error _ => (XR.nan, []))
+    | none => (XR.nan, [])
+
+/-- `summarize_status` after `set_p_values` on a round's data -/
+def roundComplete (ids : List String) (val : String → String → Nat → ℚ) (T : String → String → SeqTest)
+    (s : Status.State) (dc : List (Except Sampling.Err (List Nat))) : Bool :=
+  summarizeStatus (setPValues (roundTest ids val T dc) s).2
+
+/-- the audit loop: at most `K` rounds; each round the policy — ANY function of the outputs of the rounds so far
+(selected cards, thresholds, every contest's data cards; hence of every value seen) — chooses the new
+`sample_size` of every contest and whether to continue from the previous selection or redraw; `Rounds.step` (the
+literal model: set sizes, `consistent_sampling`, `mvrs_to_data` filter per contest, thresholds and selection
+carried over) is run; the audit is reported complete at the first round whose data confirm every assertion.
+An exception of `consistent_sampling` ends the audit without a report. -/
+def csLoop (ids : List String) (val : String → String → Nat → ℚ) (T : String → String → SeqTest)
+    (s : Status.State) (pol : List CsOut → CsRound) : Nat → CsState → List CsOut → Bool
+  | 0, _, _ => false
+  | K + 1, st, seen =>
+    match Sampling.Rounds.step true st (pol seen) with
+    | .error _ => false
+    | .ok (st', o) => roundComplete ids val T s o.dataCards || csLoop ids val T s pol K st' (seen ++ [o])
+
+/-- the state before the first round: `cvr_list` = `base` with the sample numbers of the order `π`, nothing
+sampled, nothing carried over -/
+def csInit (base : List Sampling.Card) (num : Nat → Nat) (cons0 : List Sampling.Contest) (π : List Nat) : CsState :=
+  { cards := cvrList base num π, contests := cons0, sampled := base.map (fun _ => false), prev := [] }
+
+/-- **the audit as a function of the order `π`**: reported complete at some round -/
+def csAudit (base : List Sampling.Card) (num : Nat → Nat) (cons0 : List Sampling.Contest) (s : Status.State)
+    (T : String → String → SeqTest) (val : String → String → Nat → ℚ) (pol : List CsOut → CsRound) (K : Nat)
+    (π : List Nat) : Bool :=
+  csLoop (cons0.map (·.id)) val T s pol K (csInit base num cons0 π) []
+
+/-- what the policy must respect in a round (`ids` = the contests in dict order, `cid` = the contest with the
+false assertion): one size per contest, `n_c ≤ #cards listing c` (beyond it `consistent_sampling` raises), and
+at least one card for contest `cid` (with `n = 0` the threshold is not set by the call and `mvrs_to_data` uses a
+stale one or raises: DESIGN F20) -/
+def SizesOk (base : List Sampling.Card) (ids : List String) (cid : String) (sizes : List Nat) : Prop :=
+  sizes.length = ids.length ∧ ∀ (k : Nat) (id : String) (n : Nat), ids[k]? = some id → sizes[k]? = some n →
+    n ≤ (base.filter (fun cd => cd.has id)).length ∧ (id = cid → 1 ≤ n)
+
+theorem setSizes_eq_zipWith : ∀ (cons : List Sampling.Contest) (ns : List Nat), cons.length = ns.length →
+    Sampling.Rounds.setSizes cons ns = List.zipWith (fun con n => { con with sampleSize := n }) cons ns
+  | [], [], _ => rfl
+  | [], _ :: _, h => by simp at h
+  | _ :: _, [], h => by simp at h
+  | con :: cs, n :: ns, h => by
+    simp only [Sampling.Rounds.setSizes, List.zipWith_cons_cons]
+    rw [setSizes_eq_zipWith cs ns (by simpa using h)]
+
+theorem setSizes_getElem? (cons : List Sampling.Contest) (ns : List Nat) (hl : cons.length = ns.length) (k : Nat)
+    (con : Sampling.Contest) (h : (Sampling.Rounds.setSizes cons ns)[k]? = some con) :
+    ∃ con0 n, cons[k]? = some con0 ∧ ns[k]? = some n ∧ con = { con0 with sampleSize := n } := by
+  rw [setSizes_eq_zipWith cons ns hl, List.getElem?_zipWith] at h
+  cases h1 : cons[k]? with
+  | none => rw [h1] at h; simp at h
+  | some con0 =>
+    cases h2 : ns[k]? with
+    | none => rw [h1, h2] at h; simp at h
+    | some n =>
+      rw [h1, h2] at h
+      simp only [Option.some.injEq] at h
+      exact ⟨con0, n, rfl, rfl, h.symm⟩
+
+theorem setSizes_map_id : ∀ (cons : List Sampling.Contest) (ns : List Nat),
+    (Sampling.Rounds.setSizes cons ns).map (·.id) = cons.map (·.id)
+  | [], _ => by cases ‹List Nat› <;> rfl
+  | _ :: _, [] => rfl
+  | con :: cs, n :: ns => by simp [Sampling.Rounds.setSizes, setSizes_map_id cs ns]
+
+theorem wf_setSizes (base : List Sampling.Card) (num : Nat → Nat) (hnum : StrictMono num) (π : List Nat)
+    (hπ : π.Perm (List.range base.length)) (cons : List Sampling.Contest) (hids : (cons.map (·.id)).Nodup)
+    (cid : String) (sizes : List Nat) (hs : SizesOk base (cons.map (·.id)) cid sizes) :
+    C07.Wf (cvrList base num π) (Sampling.Rounds.setSizes cons sizes) := by
+  apply cvrList_wf base num hnum π hπ
+  · rw [setSizes_map_id]; exact hids
+  · intro con hm
+    obtain ⟨k, hk⟩ := List.mem_iff_getElem?.1 hm
+    obtain ⟨con0, n, h1, h2, rfl⟩ := setSizes_getElem? cons sizes (by rw [hs.1]; simp) k con hk
+    exact (hs.2 k con0.id n (by rw [List.getElem?_map, h1]; rfl) h2).1
+
+/-- the invariant of the loop -/
+structure CsInv (cl : List Sampling.Card) (ids : List String) (st : CsState) : Prop where
+  cards : st.cards = cl
+  ids : st.contests.map (·.id) = ids
+  prev : C10.PrevOk cl st.prev
+
+/-- **one round in closed form**: it succeeds, the invariant is kept, and every contest given `n ≥ 1` cards has as
+its data the first `n` entries of the sub-order of `π` of the cards listing it -/
+theorem step_closed (base : List Sampling.Card) (num : Nat → Nat) (hnum : StrictMono num) (π : List Nat)
+    (hπ : π.Perm (List.range base.length)) (ids : List String) (hids : ids.Nodup) (cid : String)
+    (st : CsState) (hinv : CsInv (cvrList base num π) ids st) (r : CsRound) (hs : SizesOk base ids cid r.sizes) :
+    ∃ st' o, Sampling.Rounds.step true st r = .ok (st', o) ∧ CsInv (cvrList base num π) ids st' ∧
+      o.dataCards.length = ids.length ∧
+      ∀ (k : Nat) (id : String) (n : Nat), ids[k]? = some id → r.sizes[k]? = some n → 1 ≤ n →
+        o.dataCards[k]? = some (.ok ((π.filter (lists base id)).take n)) := by
+  obtain ⟨hcards, hidsEq, hprev⟩ := hinv
+  have hids' : (st.contests.map (·.id)).Nodup := by rw [hidsEq]; exact hids
+  have hs' : SizesOk base (st.contests.map (·.id)) cid r.sizes := by rw [hidsEq]; exact hs
+  have hwf : C07.Wf st.cards (Sampling.Rounds.setSizes st.contests r.sizes) := by
+    rw [hcards]; exact wf_setSizes base num hnum π hπ st.contests hids' cid r.sizes hs'
+  obtain ⟨st', o, e, hc, hcon, hpv, hsel, hdata⟩ := C10.step_eq st r hwf (by rw [hcards]; exact hprev)
+  have hlen : st.contests.length = r.sizes.length := by
+    have := hs'.1; simp at this; exact this.symm
+  refine ⟨st', o, e, ⟨hc.trans hcards, ?_, ?_⟩, ?_, ?_⟩
+  · rw [hcon, List.map_map]
+    have : ((fun c : Sampling.Contest => c.id) ∘ C07.outContest st.cards) = fun c => c.id := by funext c; rfl
+    rw [this, setSizes_map_id, hidsEq]
+  · rw [hpv, hsel, ← hcards]; exact C10.selSpec_ok _ _
+  · rw [hdata, List.length_map, List.length_map, ← hidsEq]
+    have := congrArg List.length (setSizes_map_id st.contests r.sizes)
+    simpa using this
+  · intro k id n hk hn h1
+    rw [← hidsEq, List.getElem?_map] at hk
+    cases hk0 : st.contests[k]? with
+    | none => rw [hk0] at hk; simp at hk
+    | some con0 =>
+      rw [hk0] at hk
+      simp only [Option.map_some, Option.some.injEq] at hk
+      have hk' : (Sampling.Rounds.setSizes st.contests r.sizes)[k]? = some { con0 with sampleSize := n } := by
+        rw [setSizes_eq_zipWith _ _ hlen, List.getElem?_zipWith, hk0, hn]
+      rw [hdata, List.getElem?_map, List.getElem?_map, hk', hsel]
+      simp only [Option.map_some]
+      rw [C10.dataCards_selSpec hwf _ _ (List.mem_iff_getElem?.2 ⟨k, hk'⟩) h1]
+      simp only [hcards]
+      rw [firstCards_cvrList base num hnum π hπ, hk]
+
+theorem lookup_zip_some {β : Type} : ∀ (ids : List String) (ds : List β) (cid : String) (d : β),
+    (ids.zip ds).lookup cid = some d → ∃ k : Nat, ids[k]? = some cid ∧ ds[k]? = some d
+  | [], _, _, _, h => by simp at h
+  | _ :: _, [], _, _, h => by simp at h
+  | id :: ids, d0 :: ds, cid, d, h => by
+    rw [List.zip_cons_cons, List.lookup_cons] at h
+    by_cases hb : (cid == id) = true
+    · rw [hb] at h
+      simp only [Option.some.injEq] at h
+      exact ⟨0, by simp [(beq_iff_eq.1 hb)], by simp [h]⟩
+    · simp only [Bool.not_eq_true] at hb
+      rw [hb] at h
+      obtain ⟨k, h1, h2⟩ := lookup_zip_some ids ds cid d h
+      exact ⟨k + 1, by simpa using h1, by simpa using h2⟩
+
+/-- completion of a round forces the p-value of every assertion, on the data cards of its contest, below the
+contest's risk limit (C09) -/
+theorem roundComplete_forces (ids : List String) (val : String → String → Nat → ℚ) (T : String → String → SeqTest)
+    (s : Status.State) (c : Status.Contest) (hc : c ∈ s) (a : Assertion) (ha : a ∈ c.assertions)
+    (dc : List (Except Sampling.Err (List Nat))) (hcomp : roundComplete ids val T s dc = true) :
+    ∃ idx, dataOf ids dc c.id = some idx ∧ pLe (T c.id a.name) c.riskLimit (idx.map (val c.id a.name)) = true := by
+  unfold roundComplete at hcomp
+  have := ((C09.complete_after_set (roundTest ids val T dc) s).1 hcomp c hc).2 a ha
+  unfold roundTest at this
+  cases hd : dataOf ids dc c.id with
+  | none => rw [hd] at this; simp [XR.le] at this
+  | some idx =>
+    rw [hd] at this
+    dsimp only at this
+    refine ⟨idx, rfl, ?_⟩
+    unfold pLe
+    cases hT : T c.id a.name (idx.map (val c.id a.name)) with
+    | ok r => rw [hT] at this; simpa using this
+    | error e => rw [hT] at this; simp [XR.le] at this
+
+/-- **Part 2 (event inclusion, for every order).**  Whatever the policy and the number of rounds: if the audit is
+reported complete at some round, the p-value of assertion `a` of contest `c` is at most `c`'s risk limit on the
+used values of SOME prefix of the order `π`. -/
+theorem csLoop_prefix (base : List Sampling.Card) (num : Nat → Nat) (hnum : StrictMono num) (π : List Nat)
+    (hπ : π.Perm (List.range base.length)) (ids : List String) (hids : ids.Nodup)
+    (val : String → String → Nat → ℚ) (T : String → String → SeqTest)
+    (s : Status.State) (c : Status.Contest) (hc : c ∈ s) (a : Assertion) (ha : a ∈ c.assertions)
+    (pol : List CsOut → CsRound) (hpol : ∀ seen, SizesOk base ids c.id (pol seen).sizes) :
+    ∀ (K : Nat) (st : CsState) (seen : List CsOut), CsInv (cvrList base num π) ids st →
+      csLoop ids val T s pol K st seen = true →
+      ∃ k, pLe (T c.id a.name) c.riskLimit ((π.take k).filterMap (datum base val c.id a.name)) = true
+  | 0, _, _, _, h => by simp [csLoop] at h
+  | K + 1, st, seen, hinv, h => by
+    obtain ⟨st', o, e, hinv', hlen, hdata⟩ :=
+      step_closed base num hnum π hπ ids hids c.id st hinv (pol seen) (hpol seen)
+    unfold csLoop at h
+    rw [e] at h
+    simp only [Bool.or_eq_true] at h
+    rcases h with h | h
+    · obtain ⟨idx, hd, hp⟩ := roundComplete_forces ids val T s c hc a ha o.dataCards h
+      unfold dataOf at hd
+      cases hl : (ids.zip o.dataCards).lookup c.id with
+      | none => rw [hl] at hd; simp at hd
+      | some d =>
+        rw [hl] at hd
+        cases d with
+        | error e => simp at hd
+        | ok idx' =>
+          simp only [Option.some.injEq] at hd
+          subst hd
+          obtain ⟨k, hk1, hk2⟩ := lookup_zip_some ids o.dataCards c.id _ hl
+          have hklt : k < (pol seen).sizes.length := by
+            rw [(hpol seen).1]; exact (List.getElem?_eq_some_iff.1 hk1).1
+          have hn : (pol seen).sizes[k]? = some (pol seen).sizes[k] := List.getElem?_eq_getElem hklt
+          have h1 := ((hpol seen).2 k c.id _ hk1 hn).2 rfl
+          rw [hdata k c.id _ hk1 hn h1] at hk2
+          simp only [Option.some.injEq, Except.ok.injEq] at hk2
+          obtain ⟨j, hj⟩ := data_prefix base val c.id a.name π (pol seen).sizes[k]
+          exact ⟨j, by rw [← hj, hk2]; exact hp⟩
+    · exact csLoop_prefix base num hnum π hπ ids hids val T s c hc a ha pol hpol K st' _ hinv' h
+
+theorem csInit_inv (base : List Sampling.Card) (num : Nat → Nat) (cons0 : List Sampling.Contest) (π : List Nat) :
+    CsInv (cvrList base num π) (cons0.map (·.id)) (csInit base num cons0 π) :=
+  ⟨rfl, rfl, ⟨by simp [csInit], by simp [csInit]⟩⟩
+
+/-- Part 2 for `csAudit`, as the event of the draw tree: "ever, on a prefix of the order" -/
+theorem csAudit_ever (base : List Sampling.Card) (num : Nat → Nat) (hnum : StrictMono num) (π : List Nat)
+    (hπ : π.Perm (List.range base.length)) (cons0 : List Sampling.Contest) (hids : (cons0.map (·.id)).Nodup)
+    (val : String → String → Nat → ℚ) (T : String → String → SeqTest)
+    (s : Status.State) (c : Status.Contest) (hc : c ∈ s) (a : Assertion) (ha : a ∈ c.assertions)
+    (pol : List CsOut → CsRound) (hpol : ∀ seen, SizesOk base (cons0.map (·.id)) c.id (pol seen).sizes) (K : Nat)
+    (h : csAudit base num cons0 s T val pol K π = true) :
+    ever (fun h => pLe (T c.id a.name) c.riskLimit (h.filterMap (datum base val c.id a.name))) [] π = true := by
+  rw [ever_iff]
+  obtain ⟨k, hk⟩ := csLoop_prefix base num hnum π hπ _ hids val T s c hc a ha pol hpol K _ []
+    (csInit_inv base num cons0 π) h
+  exact ⟨k, by simpa using hk⟩
+
 end Shangrla.RiskLimit
